@@ -290,6 +290,8 @@ enum Lead {
 	Tight,
 	Generous,
 	Starve,
+	/// exactly `Cb::grant` iterations before each callback
+	Script,
 }
 #[derive(Clone, Debug)]
 struct Scenario {
@@ -308,6 +310,8 @@ struct Scenario {
 	gran: usize,
 	lead: Lead,
 	cbs: Vec<Cb>,
+	/// deliberately outside the property's guard (witness replays): no streaming-vs-static monitor
+	outside: bool,
 }
 
 struct Ids {
@@ -696,7 +700,7 @@ fn run_direct(ids: &Ids, sc: &Scenario) -> Trace {
 						}
 					}
 				};
-				let g = (target - lb).max(0) as u64;
+				let g = if sc.lead == Lead::Script { cb.grant } else { (target - lb).max(0) as u64 };
 				ctl.grant(g);
 				decs.push(g);
 				if ctl.ended() {
@@ -773,7 +777,7 @@ fn monitors(s: &mut Session, desc: &str, sc: &Scenario, tr: &Trace) -> bool {
 		fail(s, format!("panic (code {c}) while driving the two sounds: {}", last_panic()));
 		return false;
 	}
-	if !tr.ahead {
+	if !tr.ahead || sc.outside {
 		return true; // outside the hypothesis (deliberately starved): model comparison only
 	}
 	// same output frames, same state and finished() after every process call
@@ -1043,7 +1047,7 @@ fn gen_scenario(r: &mut Rng, model: bool, lead: Lead) -> Scenario {
 	}
 	let packets = gen_packets(r, n);
 	let gran = *r.pick(&[1usize, 1, 2, 3, 7, 1000]);
-	let mut sc = Scenario { sr, dt, frames, slice, start, lp, st, vol: gen_db(r), rate, pan: gen_pan(r), fade_in, packets, gran, lead, cbs };
+	let mut sc = Scenario { sr, dt, frames, slice, start, lp, st, vol: gen_db(r), rate, pan: gen_pan(r), fade_in, packets, gran, lead, cbs, outside: false };
 	// keep a callback's consumption well inside the ring
 	let rmax = rate_bound(&sc);
 	for cb in &mut sc.cbs {
@@ -1057,7 +1061,7 @@ fn gen_scenario(r: &mut Rng, model: bool, lead: Lead) -> Scenario {
 }
 /// a scenario shell that carries only what `pops_bound` reads
 fn sc_view(sr: u32, dt: f64) -> Scenario {
-	Scenario { sr, dt, frames: vec![], slice: None, start: Pos::Smp(0), lp: None, st: Start::Imm, vol: Tgt::Fixed(0.0), rate: Tgt::Fixed(1.0), pan: Tgt::Fixed(0.0), fade_in: None, packets: vec![], gran: 1, lead: Lead::Free, cbs: vec![] }
+	Scenario { sr, dt, frames: vec![], slice: None, start: Pos::Smp(0), lp: None, st: Start::Imm, vol: Tgt::Fixed(0.0), rate: Tgt::Fixed(1.0), pan: Tgt::Fixed(0.0), fade_in: None, packets: vec![], gran: 1, lead: Lead::Free, cbs: vec![], outside: false }
 }
 
 fn key_of(t: &str) -> String {
@@ -1211,6 +1215,59 @@ fn manager_pair(s: &mut Session, ids: &Ids, r: &mut Rng) {
 	}
 }
 
+/// the `*_refuted` witnesses of C09/Props.v on the implementation: each lies outside one clause of the guard, the
+/// model says the two sounds differ there; the case goes to the model comparison, and whether the implementation
+/// diverges as well is recorded
+fn witnesses(s: &mut Session, ids: &Ids) {
+	let frames8: Vec<(u32, u32)> = (1..=8).map(|k| ((k as f32).to_bits(), (-(k as f32)).to_bits())).collect();
+	let plain = |len: usize| Cb { cmds: Cmds::default(), lens: vec![len], clocks: vec![], mods: vec![], grant: 0 };
+	let base = |rate: f64, slice: Option<(usize, usize)>, start: usize, lead: Lead, cbs: Vec<Cb>| Scenario {
+		sr: 4,
+		dt: 0.25,
+		frames: frames8.clone(),
+		slice,
+		start: Pos::Smp(start),
+		lp: None,
+		st: Start::Imm,
+		vol: Tgt::Fixed(0.0),
+		rate: Tgt::Fixed(rate),
+		pan: Tgt::Fixed(0.0),
+		fade_in: None,
+		packets: vec![1, 2, 3, 2],
+		gran: 2,
+		lead,
+		cbs,
+		outside: true,
+	};
+	let mut set_rate_one = plain(3);
+	set_rate_one.cmds.rate = Some((Tgt::Fixed(1.0), Tw { start: Start::Imm, dur_ns: 0, easing: Easing::Linear }));
+	let list: Vec<(&str, Scenario)> = vec![
+		// the decoder does not keep ahead: the starving lead of the paced mode on the witness's settings
+		("starved", base(1.5, None, 0, Lead::Script, vec![Cb { grant: 3, ..plain(4) }, Cb { grant: 20, ..plain(4) }])),
+		// a slice reaching beyond the audio
+		("slice_beyond_audio", base(1.5, Some((5, 11)), 0, Lead::Free, vec![plain(4), plain(4)])),
+		// a negative rate
+		("negative_rate", base(-1.0, None, 4, Lead::Free, vec![plain(4)])),
+		// rate -0.0, then set_playback_rate(1.0)
+		("negative_zero_rate", base(-0.0, None, 2, Lead::Free, vec![set_rate_one, plain(3)])),
+	];
+	for (name, sc) in list {
+		let tr = submit(s, ids, &format!("witness_{name}"), &sc, true);
+		let differ = tr.st.calls.iter().zip(tr.sm.calls.iter()).any(|(a, b)| {
+			a.2 != b.2 || a.1.iter().zip(b.1.iter()).any(|(x, y)| obs32(x.left) != obs32(y.left) || obs32(x.right) != obs32(y.right))
+		});
+		s.count(&format!("witness_{name}_{}", if differ { "diverges" } else { "does_not_diverge" }));
+		if differ {
+			let k = tr.st.calls.iter().zip(tr.sm.calls.iter()).position(|(a, b)| a.1.iter().zip(b.1.iter()).any(|(x, y)| obs32(x.left) != obs32(y.left))).unwrap_or(0);
+			s.notes.push(format!(
+				"outside the guard ({name}): static and streaming sound differ on the implementation as the model says, e.g. process call {k}: static {:?} streaming {:?}",
+				tr.st.calls[k].1.iter().map(|f| f.left).collect::<Vec<_>>(),
+				tr.sm.calls[k].1.iter().map(|f| f.left).collect::<Vec<_>>()
+			));
+		}
+	}
+}
+
 pub fn run(args: &Args) {
 	let mut rng = Rng::new(args.seed ^ 0xC09);
 	install_hook();
@@ -1252,6 +1309,8 @@ pub fn run(args: &Args) {
 		submit(&mut s, &ids, "pair_big", &sc, false);
 	}
 	eprintln!("phase3 {:?}", t_phase.elapsed());
+	// 3b. the Coq witnesses (`*_refuted`) replayed on the real code: outside the guard the two sounds do differ
+	witnesses(&mut s, &ids);
 	// 4. through two real managers
 	for _ in 0..n_mgr {
 		manager_pair(&mut s, &ids, &mut rng);
